@@ -40,9 +40,9 @@ func init() {
 }
 
 func c13Run(x *core.Ctx) {
-	n := 125 // x16 = 2k
+	n := 300 // x16 = 4.8k
 	if !x.Quick() {
-		n = 2500
+		n = 6000
 	}
 	r := x.Rand(uint64(x.Shard))
 	for i := 0; i < n; i++ {
